@@ -254,7 +254,7 @@ def build_scores(spec, L=None):
     L = L or lib()
     dt = spec.get("dtype", "float64")
     pos = np.asarray(spec["pos"], dtype=dt)
-    neg = np.asarray(spec["neg"], dtype=dt)
+    neg = np.asarray(spec["neg"], dtype=spec.get("dtype_neg", dt))
     is_sorted = bool(spec.get("presorted", False))
     if is_sorted:
         pos = np.sort(pos)
@@ -495,7 +495,12 @@ def values_subset(sub, sup):
     sub = np.asarray(sub)
     if sub.size == 0:
         return True
-    return bool(np.all(np.isin(sub, np.asarray(sup))))
+    sup = np.asarray(sup)
+    if sub.dtype != sup.dtype and (sub.dtype.kind in "iu" or sup.dtype.kind in "iu"):
+        # exact comparison (Python int against float is exact; NumPy would first round both to float64)
+        pool = set(sup.tolist())
+        return all(v in pool for v in sub.tolist())
+    return bool(np.all(np.isin(sub, sup)))
 
 
 # --------------------------------------------------------------------------
